@@ -762,6 +762,26 @@ fn check_composition(
     }
 }
 
+// tokens separated only by whitespace or annotations must still compose,
+// except where the separation is what forms a list: a value (or the end of one)
+// followed by the start of a value
+fn check_separated_composition(previous: SecondaryDefinition, current: SecondaryDefinition, token: &LexerToken) -> Result<(), CompilerError> {
+    let ends_value = match previous {
+        SecondaryDefinition::Value | SecondaryDefinition::Identifier | SecondaryDefinition::EndGrouping | SecondaryDefinition::UnarySuffix => true,
+        _ => false,
+    };
+    let starts_value = match current {
+        SecondaryDefinition::Value | SecondaryDefinition::Identifier | SecondaryDefinition::StartGrouping | SecondaryDefinition::UnaryPrefix => true,
+        _ => false,
+    };
+
+    if ends_value && starts_value {
+        return Ok(());
+    }
+
+    check_composition(previous, current, true, token)
+}
+
 const EMPTY_TOKENS: &[LexerToken] = &[];
 fn trim_tokens(tokens: &Vec<LexerToken>) -> &[LexerToken] {
     let mut start = 0;
@@ -804,6 +824,9 @@ pub fn parse(lex_tokens: &Vec<LexerToken>) -> Result<ParseResult, CompilerError>
     let mut group_stack: Vec<(usize, bool)> = vec![];
     let mut current_group = None;
     let mut previous_second_def = SecondaryDefinition::None;
+    // last token that was neither whitespace nor an annotation, and whether any of those came after it
+    let mut previous_significant_def = SecondaryDefinition::None;
+    let mut separated = false;
 
     let trimmed = trim_tokens(&lex_tokens);
 
@@ -847,6 +870,7 @@ pub fn parse(lex_tokens: &Vec<LexerToken>) -> Result<ParseResult, CompilerError>
                         last_left.and_then(|p| nodes.get(p)).and_then(|node| {
                             // need to update prev def as well for composition check
                             previous_second_def = node.secondary_definition;
+                            previous_significant_def = node.secondary_definition;
                             Some(())
                         });
                     }
@@ -870,6 +894,17 @@ pub fn parse(lex_tokens: &Vec<LexerToken>) -> Result<ParseResult, CompilerError>
         );
 
         check_composition(previous_second_def, secondary_definition, check_for_list, token)?;
+
+        match secondary_definition {
+            SecondaryDefinition::Whitespace | SecondaryDefinition::Annotation => separated = true,
+            _ => {
+                if separated {
+                    check_separated_composition(previous_significant_def, secondary_definition, token)?;
+                }
+                previous_significant_def = secondary_definition;
+                separated = false;
+            }
+        }
 
         // done with previous, can update now
         previous_second_def = secondary_definition;
@@ -1264,6 +1299,9 @@ pub fn parse(lex_tokens: &Vec<LexerToken>) -> Result<ParseResult, CompilerError>
     // final composition check
     // previous is def of last node
     check_composition(previous_second_def, SecondaryDefinition::None, check_for_list, &last_token)?;
+    if separated {
+        check_separated_composition(previous_significant_def, SecondaryDefinition::None, &last_token)?;
+    }
 
     // also make sure all groups have been closed
     if !group_stack.is_empty() {
